@@ -54,6 +54,7 @@ META = dict(
                  'removal) before and after'],
     min_eval=500, min_distinct=150,
     required_events=['LogOperationRecorder.stage_pywbem_result',
+                     'request-trace-compared',
                      'LogOperationRecorder.stage_http_response2',
                      'TestClientRecorder.record',
                      'OperationStatistic.stop_timer', 'password-scanned'],
@@ -118,6 +119,64 @@ def reset_logging():
                 pass
         lg.setLevel(logging.NOTSET)
         lg.propagate = True
+
+
+QUERY_OPS = ('ExecQuery', 'OpenQueryInstances', 'PullInstances',
+             'IterQueryInstances')
+
+
+def canned_query_answer(rng, op):
+    """A successful answer for the query operations (the mock server has no
+    query engine): instances without path, as DSP0200 defines for them."""
+    insts = [CIMInstance('VF_Q', properties=[
+        ('N', Uint32(k)), ('Note', ''.join(rng.choice(NONASCII)
+                                           for _ in range(rng.randint(0, 60))))])
+        for k in range(rng.randint(0, 4))]
+    if op == 'ExecQuery':
+        return xmlserver.imethod_response(
+            op, [('IRETURNVALUE', {}, insts)], 'root/cimv2')
+    wire_op = 'OpenQueryInstances' if op == 'IterQueryInstances' else op
+    eos = rng.random() < 0.7
+    return xmlserver.imethod_response(
+        wire_op, [('IRETURNVALUE', {}, insts),
+                  ('EnumerationContext', None, None if eos else 'ctx-1'),
+                  ('EndOfSequence', None, eos)], 'root/cimv2')
+
+
+def reencode(rng, body):
+    """The same document in another character encoding, declared in the XML
+    declaration (a server may answer in any encoding XML allows)."""
+    try:
+        text = body.decode('utf-8')
+    except UnicodeDecodeError:
+        return body
+    enc = rng.choice(['iso-8859-1', 'windows-1252', 'utf-16', 'us-ascii',
+                      'UTF-8'])
+    head = '<?xml version="1.0" encoding="utf-8" ?>'
+    if not text.startswith(head):
+        return body
+    rest = text[len(head):]
+    if enc in ('iso-8859-1', 'windows-1252', 'us-ascii'):
+        limit = 127 if enc == 'us-ascii' else 255
+        rest = ''.join(c if ord(c) <= limit else
+                       ('\xe9' if limit == 255 else 'e') for c in rest)
+    try:
+        return ('<?xml version="1.0" encoding="%s" ?>' % enc + rest).encode(
+            enc)
+    except UnicodeEncodeError:
+        return body
+
+
+def request_trace(adapter):
+    """What was put on the wire, request by request: target, every header
+    (incl. Authorization) and the body."""
+    out = []
+    for r in adapter.requests:
+        b = r.body if isinstance(r.body, bytes) else (r.body or '').encode()
+        out.append((r.method, r.url, tuple(sorted(
+            (k.lower(), v if isinstance(v, str) else v.decode('latin-1'))
+            for k, v in r.headers.items())), b))
+    return out
 
 
 class Capture(logging.Handler):
@@ -199,7 +258,9 @@ def run_case(ctx, i, rng):
     G = ops.RepoMaterial(rng, info)
     # read-mostly mix so that the shared repository stays populated
     op = rng.choice(ops.ALL_OPS) if rng.random() < 0.5 else rng.choice(
-        ['EnumerateInstances', 'GetInstance', 'EnumerateInstanceNames',
+        ['OpenQueryInstances', 'PullInstances', 'ExecQuery',
+         'IterQueryInstances',
+         'EnumerateInstances', 'GetInstance', 'EnumerateInstanceNames',
          'Associators', 'OpenEnumerateInstances', 'IterEnumerateInstances',
          'InvokeMethod', 'GetClass', 'EnumerateClasses', 'References',
          'IterEnumerateInstancePaths', 'ExportIndication'])
@@ -212,7 +273,10 @@ def run_case(ctx, i, rng):
               'IterEnumerateInstancePaths') and rng.random() < 0.6:
         args = ('VF_Other',)      # the long non-ASCII instances
     rclass = rng.choice(['valid', 'valid', 'valid', 'cimerror-nonascii',
-                         'mutated', 'garbage', 'invalid', 'http', 'fault'])
+                         'mutated', 'garbage', 'invalid', 'http', 'fault',
+                         'valid-reencoded'])
+    if op in QUERY_OPS and rng.random() < 0.7:
+        rclass = 'canned-query'
     if not pool and rclass == 'mutated':
         rclass = 'valid'
     password = 'Pw-' + ''.join(rng.choice('abcdefghjkmnpqrstuvwxyz23456789')
@@ -247,6 +311,10 @@ def run_case(ctx, i, rng):
             if len(pool) < 40:
                 pool.append(body)
             ans = transport.Scripted(body=body)
+        elif rclass == 'canned-query':
+            ans = transport.Scripted(body=canned_query_answer(rng, op))
+        elif rclass == 'valid-reencoded':
+            ans = transport.Scripted(body=reencode(rng, valid_answer(request)))
         elif rclass == 'cimerror-nonascii':
             desc = ''.join(rng.choice(NONASCII)
                            for _ in range(rng.randint(1, 200)))
@@ -377,6 +445,25 @@ def run_case(ctx, i, rng):
                       % (desc, cfg_name(cfg), short(repr(out0), 300),
                          short(repr(out1), 300)),
                       dict(detail, observed=short(repr(out1), 400)))
+    tr0, tr1 = request_trace(ad0), request_trace(ad1)
+    ctx.count('request-trace-compared')
+    if tr0 != tr1 and len(tr0) == len(tr1):
+        for a, b in zip(tr0, tr1):
+            if a != b:
+                what = 'headers' if a[3] == b[3] else 'body'
+                hd = [k for (k, v), (k2, v2) in zip(a[2], b[2])
+                      if (k, v) != (k2, v2)] if len(a[2]) == len(b[2]) \
+                    else ['<different set of headers>']
+                ctx.violation(
+                    'request-changed.%s.%s' % (
+                        what, ','.join(hd[:3]) if what == 'headers'
+                        else observer_of(cfg, None)),
+                    '%s under %s: the request sent differs from the one '
+                    'sent without observers (%s %s)' % (
+                        desc, cfg_name(cfg), what, hd[:3]),
+                    dict(detail, bare=short(repr(a[2]), 600),
+                         observed=short(repr(b[2]), 600)))
+                break
     if replay_state['extra'] or replay_state['n'] != len(recorded):
         ctx.violation('request-count-changed.%s' % observer_of(cfg, None),
                       '%s: %d requests bare, %d with observers %s'
